@@ -193,7 +193,14 @@ C14Session(e) == e.ev = "sess" =>
          /\ e.ok = (TypeOf(e.rec.ptype, e.rec.stype) # "undefined")
          /\ (~e.ok \/ e.type = TypeOf(e.rec.ptype, e.rec.stype))
          /\ (e.reply.m.sid = -1 \/ (e.rbuilt /\ e.rbytes = Wire(SessHdr(e.reply.m)))))
-PropC14(e) == C14Case(e) /\ C14Type(e) /\ C14Sid(e) /\ C14Code(e) /\ C14Pairing(e) /\ C14Raw(e) /\ C14Session(e)
+\* a request constructor given more than four system bytes refuses, or yields a 14-byte message like any other (its
+\* system bytes four consecutive ones of those given) that decodes to an equal message
+C14Over(e) == e.ev = "sysover" =>
+   (e.refused \/ LET want == Wire(CtorBytes(e.kind, IF e.kind = "linktest.req" THEN 65535 ELSE e.sid, <<0, 0, 0, 0>>, e.code)) IN
+                 /\ Len(e.bytes) = 14 /\ SubSeq(e.bytes, 1, 10) = SubSeq(want, 1, 10)
+                 /\ \E k \in 0..(Len(e.sys) - 4) : SubSeq(e.bytes, 11, 14) = SubSeq(e.sys, k + 1, k + 4)
+                 /\ e.type = e.kind /\ e.ok /\ e.same)
+PropC14(e) == C14Case(e) /\ C14Type(e) /\ C14Sid(e) /\ C14Code(e) /\ C14Pairing(e) /\ C14Raw(e) /\ C14Session(e) /\ C14Over(e)
 
 \* ------------------------------------------------------------------ model agreement (drift only)
 AgreeDecoder(e) == e.ev \in {"rt", "dec"} =>
